@@ -47,6 +47,12 @@ pub fn compress_fastest<M: Matcher>(
         // Also preserve the format guard that compressed blocks must not
         // exceed the maximum block size.
         if compressed_size >= block_size as usize || compressed_size > MAX_BLOCK_SIZE as usize {
+            // The compressed block is thrown away, so the decoder never sees the entropy tables it contained.
+            // Forget them, or the next block might reference a table the decoder doesn't have.
+            state.last_huff_table = None;
+            state.fse_tables.ll_previous = None;
+            state.fse_tables.ml_previous = None;
+            state.fse_tables.of_previous = None;
             let header = BlockHeader {
                 last_block,
                 block_type: crate::blocks::block::BlockType::Raw,
